@@ -13,6 +13,7 @@ def op_configs(tier):
         out.append(dict(name=name, **kw))
     add("permutation A", op="perm", fam="A", R=5, force=None)
     add("permutation A keep-u1", op="perm", fam="A", R=5, force=["u1"])
+    add("permutation A keep list with repeated, observed and unknown names", op="perm", fam="A", R=7, force=["u2", "obs", "u2", "nope", "u4"])
     add("permutation E (all-control row)", op="perm", fam="E", R=5, force=None)
     add("segregating E (all-control row)", op="segr", fam="E", R=5, pmax=3)
     add("fixed-size E (all-control row)", op="fixed", fam="E", R=6, pmax=3)
